@@ -93,12 +93,24 @@ def w_program(case):
     sel = case['sens_outputs']
     values = dict(zip(names, pv))
 
+    orig = list(names)
+
     def closed(vec, free_idx):
         v = dict(values)
         for k, i in enumerate(free_idx):
-            v[names[i]] = vec[k]
+            v[orig[i]] = vec[k]
         r = rc.solve(desc, v, times)
         return np.array([r[o] for o in sel])   # (n_out, n_times)
+    if case.get('rename'):
+        # user-chosen names for some parameters: positions keep their meaning
+        m.set_parameter_names({orig[i]: 'q_%d' % i for i in case['rename']})
+        names = ['q_%d' % i if i in case['rename'] else nme
+                 for i, nme in enumerate(orig)]
+        if m.parameters() != names:
+            viol.append({'sub': 'renamed', 'message': 'renamed parameters are not '
+                         'published in place (%s)' % lab, 'expected': names,
+                         'observed': m.parameters(), 'behaviour': 'renamed'})
+            return {'transitions': ntr, 'outcome': 'renamed', 'violations': viol}
     for fixed in case['fixed_sets']:
         free_idx = [i for i in range(len(names)) if i not in fixed]
         if fixed:
@@ -178,6 +190,89 @@ def w_program(case):
                              'published order (%s)' % lab, 'fixed': sorted(fixed_now),
                              'expected': eS, 'observed': S,
                              'behaviour': 'sens_history'})
+    # dosed initial-value problem (PKPD models): the input enters the IVP whatever
+    # the sequence of enable_sensitivities / fix_parameters calls, also when the
+    # regimen is given through the reduced wrapper with its documented defaults
+    if case['cls'] == 'PKPD' and case.get('dosed'):
+        comp = case['dosed']
+        for variant in case['dose_variants']:
+            tmp = tempfile.mkdtemp(prefix='vc09_')
+            try:
+                md = chi.PKPDModel(sbmlgen.write(desc, tmp))
+            finally:
+                shutil.rmtree(tmp, ignore_errors=True)
+            md.set_administration(comp, amount_var='drug_%s_amount' % comp,
+                                  direct=True)
+            if case.get('rename'):
+                md.set_parameter_names(
+                    {orig[i]: 'q_%d' % i for i in case['rename']})
+            md.set_outputs(list(sel))
+            dose, start = 1.7, 0.35
+            fixed = [0]
+            free_idx = [i for i in range(len(names)) if i not in fixed]
+            x = np.array([pv[i] for i in free_idx], dtype=float)
+            if variant == 'wrapper_default':
+                # documented default of the wrapper: bolus of duration 0.01
+                rm = chi.ReducedMechanisticModel(md)
+                rm.set_dosing_regimen(dose, start)
+                duration = 0.01
+                rm.fix_parameters({names[0]: pv[0]})
+                rm.enable_sensitivities(True)
+            else:
+                duration = 0.4
+                md.set_dosing_regimen(dose, start=start, duration=duration)
+                rm = chi.ReducedMechanisticModel(md)
+                if variant == 'sens_twice':
+                    rm.enable_sensitivities(True)
+                    rm.enable_sensitivities(True)
+                    rm.fix_parameters({names[0]: pv[0]})
+                elif variant == 'fix_after_sens':
+                    rm.enable_sensitivities(True)
+                    rm.fix_parameters({names[0]: pv[0]})
+                elif variant == 'subset':
+                    md.enable_sensitivities(True)
+                    md.enable_sensitivities(
+                        True, [names[i] for i in free_idx])
+                    rm = None
+                else:           # 'toggle'
+                    rm.fix_parameters({names[0]: pv[0]})
+                    rm.enable_sensitivities(True)
+                    rm.enable_sensitivities(False)
+                    rm.enable_sensitivities(True)
+            events = [(start, duration, dose / duration)]
+
+            def closed_d(vec):
+                v = dict(values)
+                for k, i in enumerate(free_idx):
+                    v[orig[i]] = vec[k]
+                r = rc.solve(desc, v, times, dosed=comp, events=events)
+                return np.array([r[o] for o in sel])
+            if rm is None:
+                y, S = md.simulate(list(pv), list(times))
+            else:
+                y, S = rm.simulate(list(x), list(times))
+            ntr += 4
+            S = np.asarray(S, dtype=float)
+            ey = np.real(closed_d(x))
+            eS = np.empty((len(times), len(sel), len(free_idx)))
+            for k in range(len(free_idx)):
+                z = x.astype(complex)
+                z[k] += 1j * 1e-30
+                eS[:, :, k] = (np.imag(closed_d(z)) / 1e-30).T
+            if not tol.allclose(np.asarray(y, dtype=float), ey, tol.ODE_REL,
+                                tol.ODE_ABS):
+                viol.append({'sub': 'dosed_values', 'message': 'simulation of the '
+                             'dosed model is not the solution of the dosed '
+                             'initial-value problem (%s, %s)' % (lab, variant),
+                             'expected': ey, 'observed': y,
+                             'behaviour': 'dosed_values'})
+            elif S.shape != eS.shape or not tol.allclose(S, eS, 1e-5, 1e-7):
+                viol.append({'sub': 'dosed_sens', 'message': 'sensitivities of the '
+                             'dosed model are not the derivatives w.r.t. the free '
+                             'parameters (%s, %s)' % (lab, variant),
+                             'expected': eS, 'observed': S,
+                             'behaviour': 'dosed_sens'})
+            outcome.append(tol.rnd(y, 6))
     return {'transitions': ntr, 'outcome': outcome, 'violations': viol}
 
 
@@ -326,7 +421,12 @@ def build(tier, seed):
         cases.append({'desc': desc, 'cls': 'PKPD' if di % 2 else 'SBML',
                       'points': points, 'grids': grids, 'selections': sels,
                       'sens_outputs': sens_out, 'fixed_sets': fixed_sets,
-                      'swap': [di % n, (di + 2) % n] if n > 2 else None})
+                      'swap': [di % n, (di + 2) % n] if n > 2 else None,
+                      'rename': [[], [1], list(range(n)), [0, n - 1]][di % 4],
+                      'dosed': sorted(c['id'] for c in desc['comps'])[
+                          di % len(desc['comps'])],
+                      'dose_variants': ['sens_twice', 'fix_after_sens', 'subset',
+                                        'toggle', 'wrapper_default']})
     lib = []
     for kind in LIB_NAMES:
         n = len(LIB_NAMES[kind])
